@@ -40,9 +40,14 @@ var mutations = map[string]mutation{
 	"c11-close-noflag":   one("C11", "kmipclient/client.go", "\tc.closed.Store(true)\n\tc.connLock.Lock()", "\tc.connLock.Lock()"),
 	"c11-unbuffered-err": one("C11", "kmipclient/conn.go", "errCh := make(chan error, 1)", "errCh := make(chan error)"),
 	// C12
-	"c12-no-count":  one("C12", "kmipclient/client.go", "if int(resp.Header.BatchCount) != len(resp.BatchItem) || len(resp.BatchItem) != len(payloads) {", "if len(resp.BatchItem) == 0 {"),
-	"c12-no-err":    one("C12", "kmipclient/client.go", "\tbi := resp[0]\n\tif err := bi.Err(); err != nil {\n\t\treturn nil, err\n\t}", "\tbi := resp[0]"),
-	"c12-unchecked": one("C12", "kmipclient/client.go", "\ttyped, ok := resp.(Resp)\n\tif !ok {", "\ttyped, ok := resp.(Resp), true\n\tif !ok {"),
+	"c12-no-count": one("C12", "kmipclient/client.go", "if int(resp.Header.BatchCount) != len(resp.BatchItem) || len(resp.BatchItem) != len(payloads) {", "if len(resp.BatchItem) == 0 {"),
+	"c12-no-err":   one("C12", "kmipclient/client.go", "\tbi := resp[0]\n\tif err := bi.Err(); err != nil {\n\t\treturn nil, err\n\t}", "\tbi := resp[0]"),
+	"c12-unchecked": {"C12", []edit{
+		{"kmipclient/client.go", "\ttyped, ok := resp.(Resp)\n\tif !ok {", "\ttyped, ok := resp.(Resp), true\n\tif !ok {"},
+		{"kmipclient/client.go", "\tif bi.ResponsePayload == nil || bi.ResponsePayload.Operation() != payload.Operation() {", "\tif false {"},
+	}},
+	"c12-signer-unchecked": one("C12", "kmipclient/sign_verify.go", "\t\tpubKey, ok := c.publicKey.(*ecdsa.PublicKey)\n\t\tif !ok {", "\t\tpubKey, ok := c.publicKey.(*ecdsa.PublicKey), true\n\t\tif !ok {"),
+	"c08-http-type-panic":  one("C08", "ttlv/encoding_json.go", "\t// Unknown type name: report the invalid type 0, which no reading method\n\t// accepts, so that the caller gets an encoding error instead of a panic.\n\treturn Type(0)", "\tpanic(\"Invalid type\")"),
 	// C13
 	"c13-fallback":            one("C13", "kmipclient/client.go", "if !slices.Contains(c.supportedVersions, kmip.V1_0) {", "if false {"),
 	"c13-first-listed":        one("C13", "kmipclient/client.go", "if best == nil || ttlv.CompareVersions(v, *best) > 0 {", "if best == nil {"),
